@@ -555,7 +555,10 @@ func (s *ObjectStorage) HasEncodedObject(h plumbing.Hash) (err error) {
 	// in loose.
 	if _, statErr := s.dir.ObjectStat(h); statErr == nil {
 		return nil
-	} else if !os.IsNotExist(statErr) {
+	} else if !os.IsNotExist(statErr) && !errors.Is(statErr, plumbing.ErrObjectNotFound) {
+		// With ExclusiveAccess a miss is answered from the cached listing
+		// as ErrObjectNotFound rather than as a not-exist error; both go
+		// on to the alternates.
 		return statErr
 	}
 	if idxErr != nil {
